@@ -121,6 +121,24 @@ derived_bundle!(DB5 { first: C1, second: C1 });
 derived_bundle!(DB6 { p: C2, q: C3, r: C7 });
 derived_bundle!(DB7 { r: C7, q: C3, p: C2 });
 
+/// a derived Bundle with a type parameter, used at three instantiations (kinds 18, 19, 20): code the derive
+/// generates inside the generic impl (statics, caches) is shared by all of them
+#[derive(Bundle)]
+pub struct DG<T: hecs::Component> {
+    pub a: C1,
+    pub t: T,
+}
+impl<T: Comp + hecs::Component> TupleB for DG<T> {
+    fn from_vals(v: &[u64]) -> Self {
+        let a = <C1 as Comp>::new(v[0]);
+        let t = <T as Comp>::new(v[1]);
+        DG { a, t }
+    }
+    fn into_vals(self) -> Vec<(u64, u64)> {
+        vec![(<C1 as Comp>::T, self.a.val()), (<T as Comp>::T, self.t.val())]
+    }
+}
+
 /// field types of the derived bundle struct of a kind
 pub fn derived_types(kind: u64) -> Option<&'static [u64]> {
     Some(match kind {
@@ -132,6 +150,9 @@ pub fn derived_types(kind: u64) -> Option<&'static [u64]> {
         15 => &[1, 1],
         16 => &[2, 3, 7],
         17 => &[7, 3, 2],
+        18 => &[1, 2],
+        19 => &[1, 5],
+        20 => &[1, 3],
         _ => return None,
     })
 }
@@ -152,6 +173,9 @@ pub fn dispatch_bundle<V: crate::comps::TupleVisitor>(kind: u64, types: &[u64], 
         14 => v.visit::<DB4>(),
         16 => v.visit::<DB6>(),
         17 => v.visit::<DB7>(),
+        18 => v.visit::<DG<C2>>(),
+        19 => v.visit::<DG<C5>>(),
+        20 => v.visit::<DG<C3>>(),
         _ => v.visit::<DB5>(),
     })
 }
